@@ -144,6 +144,8 @@ pub struct Block {
     pub size: usize,
     pub cap: usize,
     pub live_clones: i64,
+    /// the collection / group that created the block still holds its own reference
+    pub list_alive: bool,
     pub released: bool,
 }
 
